@@ -243,6 +243,17 @@ def check_uris(rep, stats, max_eps):
         if not ok:
           rep.violation('C20.tcp-uri', '%s parsed to %r' % (uri, got), {'scheme': 'tcp'}, {'uri': uri})
           return
+  # the same endpoint listed more than once stays listed more than once (in order)
+  for sel in ([eps[0], eps[1], eps[0]], [eps[2], eps[2]], [eps[0], eps[0], eps[0], eps[1]]):
+    stats['evals'] += 1
+    uri = 'tcp://' + ','.join('%s:%d' % e for e in sel)
+    try:
+      got = [(s.service_endpoint.host, s.service_endpoint.port) for s in parser.Parse(uri).GetServers()]
+    except Exception as e:  # noqa
+      got = repr(e)
+    if got != list(sel):
+      rep.violation('C20.tcp-uri', '%s parsed to %r' % (uri, got), {'scheme': 'tcp', 'duplicates': True}, {'uri': uri})
+      return
   stats['samples'].append({'uri': 'tcp://' + ','.join('%s:%d' % e for e in eps[:3])})
   zk_hosts = ['zk1:2181', 'zk1:2181,zk2:2181', '10.1.1.1:2181,10.1.1.2:2182,10.1.1.3:2183']
   paths = ['/a', '/svc/Prod/Thing', '/x-y_z/0']
